@@ -10,6 +10,7 @@ import (
 	"fmt"
 	"runtime"
 	"sync"
+	"sync/atomic"
 	"time"
 
 	otter "github.com/maypok86/otter/v2"
@@ -27,6 +28,7 @@ func concEvents(args []string, out *bufio.Writer) {
 		var mu sync.Mutex
 		var atomicEv, delEv []string
 		var pending sync.WaitGroup
+		var mixN atomic.Int64
 		o := &otter.Options[int, int]{
 			MaximumSize: 1 + r.intn(5),
 			OnAtomicDeletion: func(e otter.DeletionEvent[int, int]) {
@@ -42,6 +44,12 @@ func concEvents(args []string, out *bufio.Writer) {
 			// the default executor with bookkeeping, so that the end of all notifications can be awaited
 			Executor: func(fn func()) {
 				pending.Add(1)
+				// in every fifth script a third of the tasks run on the caller's goroutine (an executor may do that)
+				if i%5 == 1 && mixN.Add(1)%3 == 0 {
+					defer pending.Done()
+					fn()
+					return
+				}
 				go func() {
 					defer pending.Done()
 					fn()
